@@ -181,6 +181,11 @@ class C03:
             for v in (("l", [("I", i % 7) for i in range(k)]), ("t", [("I", i % 5) for i in range(k)]), ("l", [("N",), ("l", [("I", 1)] * k)])):
                 for p in ((1, 2, 4) if not ctx.thorough else range(6)):
                     out.append((p, rng.random() < 0.5, rng.random() < 0.5, v))
+        # very many SMALL containers in one flat value (12000 one- to three-item tuples, empty tuples, one-item lists, one-entry
+        # maps): per-container bookkeeping of the encoder (a depth counter, a scratch buffer) is exercised 12000 times in one Encode
+        for small in (("t", [("I", 1), ("I", 2)]), ("t", []), ("t", [("N",)]), ("l", [("I", 1)]), ("m", [(("I", 1), ("N",))]), ("t", [("I", 1)] * 4)):
+            for p in ((0, 2, 4) if not ctx.thorough else range(6)):
+                out.append((p, False, rng.random() < 0.5, ("l", [small] * 12000)))
         # payloads beyond 64 KiB (the decoder pre-allocates at most that much and must still read all of it)
         for n in (65536, 65537, 70001) + ((200001,) if ctx.thorough else ()):
             pay = bytes((i * 5 + 1) % 127 + 1 for i in range(n))
@@ -253,6 +258,8 @@ class C03:
         n = ctx.scale(2000, 30000)
         base = ctx.seed * 5000011
         lines = [f"encr {base + i} {rng.randint(0, 5)} {rng.randint(0, 1)}" for i in range(n)]
+        # directed: every leaf type in every kind of typed container ([]T, [3]T, map[string]T, *T, []*T, struct{F T; S []T}) x protocols
+        lines += [f"encr {-(k + 1)} {p} {rng.randint(0, 1)}" for k in range(DIRECTED_REFLECT) for p in range(6)]
         go = C.run_sharded(C.run_go, lines)
         mlines = []
         for line, g in zip(lines, go):
@@ -548,6 +555,8 @@ class C12:
         n = ctx.scale(2500, 40000)
         base = ctx.seed * 5000011
         lines = [f"encr {base + i} {rng.randint(0, 5)} {rng.randint(0, 1)}" for i in range(n)]
+        # directed: every leaf type in every kind of typed container ([]T, [3]T, map[string]T, *T, []*T, struct{F T; S []T}) x protocols
+        lines += [f"encr {-(k + 1)} {p} {rng.randint(0, 1)}" for k in range(DIRECTED_REFLECT) for p in range(6)]
         go = C.run_sharded(C.run_go, lines)
         scan_lines, scan_meta = [], []
         for line, g in zip(lines, go):
@@ -728,6 +737,9 @@ class C13:
 
 # ------------------------------------------------------------------------------------------- C15
 
+DIRECTED_REFLECT = 50 * 6 * 3      # (leaf types of the harness generator, rounded up) x container kinds x repetitions with different content
+
+
 class C15:
     prop = "C15"
     lean_module = "Ogorek.Props.C15"
@@ -756,6 +768,8 @@ class C15:
         n = ctx.scale(6000, 120000)
         base = ctx.seed * 1000003
         lines = [f"encr {base + i} {rng.randint(0, 5)} {rng.randint(0, 1)}" for i in range(n)]
+        # directed: every leaf type in every kind of typed container ([]T, [3]T, map[string]T, *T, []*T, struct{F T; S []T}) x protocols
+        lines += [f"encr {-(k + 1)} {p} {rng.randint(0, 1)}" for k in range(DIRECTED_REFLECT) for p in range(6)]
         go = C.run_sharded(C.run_go, lines)
         mlines = []
         for line, g in zip(lines, go):
